@@ -11,8 +11,9 @@ table = subprocess.run(["python3", "/verif/tools/seed_table.py"], capture_output
 intro = f'''Each change was produced by a fresh agent that saw only the property text and its own worktree (second-wave agents were also
 given one-line names of the changes already known for that property, so as to produce different ones), compiles, keeps the
 unedited suite green, needs something specific to manifest, and comes with a demonstration that fails with it and passes
-without it (all re-confirmed by me; stored under `seeded/`). Agents converged: six of the second-wave deliveries duplicated
-earlier ones (the `releaseRange` alloctx line alone was delivered four times) and are not stored twice.
+without it (all re-confirmed by me; stored under `seeded/`). Agents converged: six of the second-wave and eight of the sixth-wave deliveries duplicated
+earlier ones (the `releaseRange` alloctx line alone was delivered five times) and are not stored twice. The regression lines of the 69 changes stored before round 4 come from a run at commit
+`0a61468` (a background snapshot); the changes whose check was modified afterwards (C12, C13, C14, C17, C19) and the new ones were re-run on the final tree.
 
 {n} changes are stored, covering all 20 properties ({", ".join(props)} as the property whose check is run by the regression; where an
 agent aimed at a different property than the one that reports the change, the entry says so). `tools/seed_regress.sh` applies each
